@@ -711,7 +711,8 @@ func (c *CharSet) addCategory(categoryName string, negate, caseInsensitive bool)
 
 	}
 
-	if caseInsensitive && (categoryName == "Ll" || categoryName == "Lu" || categoryName == "Lt") {
+	// (decided on the table: "Lowercase_Letter" etc. are keys of their own for the same tables)
+	if tbl := unicodeCategories[categoryName]; caseInsensitive && (tbl == unicode.Ll || tbl == unicode.Lu || tbl == unicode.Lt) {
 		// when RegexOptions.IgnoreCase is specified then {Ll} {Lu} and {Lt} cases should all match
 		c.addCategories(
 			Category{Cat: "Ll", Negate: negate},
